@@ -6,5 +6,11 @@ CONSTANTS
   Shapes = {}
   RSet = {}
   DSet = {}
+  HW = 16
+  InitOpts = {}
+  BurstOpts = {}
+  LoopOpts = {}
+  LBurstOpts = {}
+  PairOpts = {}
 INVARIANTS TypeOK
 CHECK_DEADLOCK FALSE
